@@ -532,6 +532,9 @@ def h6_fill_idempotent_zero_component(chk, rng, tier):
         paths, proxy, ex = FC.run_fill(F, df, system, explorer=ex)
         chk.witness("H6c: the table with %s = 0 is accepted by the first fill" % zkey, "sat" if paths and paths[0].exception is None else "unsat")
         once = paths[0].result
+        if paths[0].exception is not None or once is None:
+            chk.inconclusive(name, "the first fill of the symbolic table did not complete: %s" % type(paths[0].exception).__name__)
+            return
         ex2 = X.Explorer(max_paths=16, name="C14:H6c2")
         ex2.prefer = FC.no_drop_cut
         paths2, _, _ = FC.run_fill(F, once.copy(), system, explorer=ex2)
